@@ -13,6 +13,7 @@ pub use crate::message::UtpMessage;
 pub use crate::recovery::{Recovering, Recovery};
 pub use crate::rtte::RttEstimator;
 pub use crate::seq_nr::SeqNr;
+pub use crate::socket::verif::DispatcherDriver;
 pub use crate::stream_dispatch::{StreamArgs, verif::VsockDriver};
 pub use crate::stream_rx::{AssemblerAddRemoveResult, OutOfOrderQueue, UserRx};
 pub use crate::stream_tx::UserTx;
